@@ -229,7 +229,7 @@ func (fr *Frame) instr(ins ssa.Instruction, st *State, g *Term) *Term {
 			raw := tSelect(c.sel(c.heapGet(st, vn), m), k)
 			val := c.define(x.Name(), tIte(present, raw, c.zeroTerm(mt.Elem())))
 			c.assumeG(g, c.typeConstraint(mt.Elem(), val))
-			c.assumeLoadedRef(st, vn, mt.Elem(), val)
+			c.assumeLoadedRef(st, vn, mt.Elem(), val, m)
 			c.bornNow(val)
 			if x.CommaOk {
 				fr.vals[x] = Val{Tuple: []Val{tv(val), tv(c.define(x.Name()+".ok", present))}}
@@ -371,7 +371,13 @@ func (fr *Frame) unop(x *ssa.UnOp, st *State, g *Term) *Term {
 		gg := orG(ng, g)
 		c.assumeG(gg, c.typeConstraint(x.Type(), v))
 		if loc.Kind == LCell {
-			c.assumeLoadedRef(st, loc.Name, x.Type(), v)
+			var ix *Term
+			if len(loc.Idx) > 0 {
+				ix = loc.Idx[0]
+			} else {
+				ix = intLit(0) // a global: exists at entry
+			}
+			c.assumeLoadedRef(st, loc.Name, x.Type(), v, ix)
 		} else {
 			c.assumeAllocated(st, gg, x.Type(), v)
 		}
@@ -825,7 +831,7 @@ func (fr *Frame) rangeNext(x *ssa.Next, st *State, g *Term) *Term {
 	c.assumeG(g, c.typeConstraint(rs.mt.Key(), goK))
 	v := c.define(x.Name()+".v", tSelect(tSelect(c.heapGet(st, vn), rs.mapRef), k))
 	c.assumeG(tAnd(g, ok), c.typeConstraint(rs.mt.Elem(), v))
-	c.assumeLoadedRef(st, vn, rs.mt.Elem(), v)
+	c.assumeLoadedRef(st, vn, rs.mt.Elem(), v, rs.mapRef)
 	c.bornNow(v)
 	c.heapSet(st, rs.name, tIte(ok, tStore(visited, k, tTrue), visited))
 	fr.vals[x] = Val{Tuple: []Val{tv(ok), tv(goK), tv(v)}}
